@@ -876,6 +876,130 @@ theorem recv_direct_call_signer (env : Env δ ν) (hrt : RoundTrip env) (junk : 
       rw [htr, ← hevm.2.1]
       cases hcc : call.contract <;> simp [attributed, hcc]
 
+/-! ### 5c. Histories with restarts and discarded executions; second-instance frame properties -/
+
+/-- a node restart (new application object over the same committed store) and a restart from an exported genesis are
+the identity on everything the property talks about: helper-contract storage and the native staking / gov / bank state.
+(The differential run compares the real dumps before / after; the adapter keeps no state of its own — its handler
+tables are rebuilt by `NewHookAdapter`, which is what the restart operations exercise.) -/
+def restart {ν : Type} (s : State ν) : State ν := s
+
+theorem restart_identity {ν : Type} (s : State ν) : restart s = s := rfl
+
+/-- operations of a history: a committed transaction, the same transaction on a context that is dropped
+(Simulate / CheckTx / a failed multi-message transaction), a restart. -/
+inductive HOp (δ : Type) where
+  | tx (t : Tx δ)
+  | dry (t : Tx δ)
+  | restart
+
+def HOp.wf : HOp δ → Bool
+  | .tx t => t.wf
+  | .dry t => t.wf
+  | .restart => true
+
+/-- state after the operation and the messages handed to the native modules *on the committed context*. -/
+def stepH (env : Env δ ν) (s : State ν) : HOp δ → State ν × List Msg
+  | .tx t => ((deliverTx env s t).1.1, (deliverTx env s t).2)
+  | .dry _ => (s, [])
+  | .restart => (restart s, [])
+
+def runH (env : Env δ ν) (s : State ν) : List (HOp δ) → State ν × List Msg
+  | [] => (s, [])
+  | op :: rest =>
+    let r := stepH env s op
+    let r2 := runH env r.1 rest
+    (r2.1, r.2 ++ r2.2)
+
+/-- **discarded executions and restarts change nothing.** -/
+theorem dry_restart_identity (env : Env δ ν) (s : State ν) (t : Tx δ) :
+    (stepH env s (.dry t)).1 = s ∧ (stepH env s .restart).1 = s ∧
+    runH env s [.dry t, .restart] = (s, []) := ⟨rfl, rfl, rfl⟩
+
+/-- verdicts after a dry run / restart are the verdicts without it. -/
+theorem runH_skip (env : Env δ ν) (s : State ν) (t : Tx δ) (rest : List (HOp δ)) :
+    runH env s (.dry t :: rest) = runH env s rest ∧ runH env s (.restart :: rest) = runH env s rest := by
+  constructor <;> simp [runH, stepH, restart]
+
+/-- **signer_is_caller over whole histories** (transactions, dry runs, restarts in any order): every message that ever
+reaches the native modules is a system-contract call signed by the msg.sender of the contract frame. -/
+theorem history_signers (env : Env δ ν) (hrt : RoundTrip env) (ops : List (HOp δ)) :
+    ∀ (s : State ν), (∀ op ∈ ops, op.wf = true) →
+      ∀ m ∈ (runH env s ops).2, ∃ sender call, m = msgOf sender call ∧ m.signer = sender := by
+  induction ops with
+  | nil => intro s _ m hm; simp [runH] at hm
+  | cons op rest ih =>
+    intro s hwf m hm
+    simp only [runH, List.mem_append] at hm
+    rcases hm with hm | hm
+    · cases op with
+      | tx t =>
+        have hw : t.wf = true := hwf (.tx t) (List.mem_cons_self ..)
+        obtain ⟨_, _, _, _, _, sender, call, _, h2, h3⟩ := signer_is_caller env hrt s t hw m hm
+        exact ⟨sender, call, h2, h3⟩
+      | dry t => simp [stepH] at hm
+      | restart => simp [stepH] at hm
+    · exact ih _ (fun op' h' => hwf op' (List.mem_cons_of_mem _ h')) m hm
+
+/-- **atomicity over histories**: an operation that is not a successful transaction leaves the state as it was. -/
+theorem history_step_atomic (env : Env δ ν) (s : State ν) (op : HOp δ)
+    (h : ∀ t, op = .tx t → (deliverTx env s t).1.2 ≠ .ok) : (stepH env s op).1 = s := by
+  cases op with
+  | tx t => exact atomic env s t (h t rfl)
+  | dry t => rfl
+  | restart => rfl
+
+/-! #### (S) second instance: the concrete native model keys votes by (proposal, voter) and stake by (delegator, validator) -/
+
+theorem alookup_aset_ne {κ β : Type} [BEq κ] [LawfulBEq κ] (l : List (κ × β)) (k k' : κ) (v : β) (h : k ≠ k') :
+    alookup (aset l k v) k' = alookup l k' := by
+  induction l with
+  | nil =>
+    have : (k == k') = false := by simpa using h
+    simp [aset, alookup, List.find?, this]
+  | cons e rest ih =>
+    obtain ⟨k0, v0⟩ := e
+    simp only [aset]
+    by_cases h0 : (k0 == k) = true
+    · have e0 : k0 = k := by simpa using h0
+      subst e0
+      have : (k0 == k') = false := by simpa using h
+      simp [alookup, List.find?, this]
+    · simp only [h0, Bool.false_eq_true, ↓reduceIte]
+      by_cases h1 : (k0 == k') = true
+      · simp [alookup, List.find?, h1]
+      · have h1' : (k0 == k') = false := by simpa using h1
+        simp only [alookup, List.find?, h1'] at ih ⊢
+        exact ih
+
+/-- a vote of `voter` on proposal `p` leaves every other (proposal, voter) entry — in particular the other proposal's
+votes and other voters' votes on the same proposal — and all staking state untouched. -/
+theorem vote_frame (cls : Bytes → ValClass) (n n' : Native) (voter : Addr) (p : Nat) (o : Int)
+    (h : execMsg cls n (.vote voter p o) = .ok n') (p' : Nat) (voter' : Addr) (hne : (p, voter) ≠ (p', voter')) :
+    alookup n'.votes (p', voter') = alookup n.votes (p', voter') ∧ n'.dels = n.dels ∧ n'.ubds = n.ubds ∧
+      n'.reds = n.reds ∧ n'.bank = n.bank := by
+  simp only [execMsg] at h
+  split at h
+  · cases h
+  · cases h
+  · injection h with h
+    subst h
+    exact ⟨alookup_aset_ne _ _ _ _ hne, rfl, rfl, rfl, rfl⟩
+
+/-- a delegation of `del` to validator `i` leaves every other (delegator, validator) stake and all votes untouched. -/
+theorem delegate_frame (cls : Bytes → ValClass) (n n' : Native) (del : Addr) (v : Bytes) (i amt : Nat)
+    (hc : cls v = .known i) (h : execMsg cls n (.delegate del v amt) = .ok n')
+    (del' : Addr) (j : Nat) (hne : (del, i) ≠ (del', j)) :
+    alookup n'.dels (del', j) = alookup n.dels (del', j) ∧ n'.votes = n.votes ∧ n'.ubds = n.ubds ∧ n'.reds = n.reds := by
+  simp only [execMsg, hc] at h
+  split at h
+  · cases h
+  · split at h
+    · cases h
+    · injection h with h
+      subst h
+      exact ⟨alookup_aset_ne _ _ _ _ hne, rfl, rfl, rfl⟩
+
 /-! ### 6. Non-vacuity: concrete instances of the hypotheses and of every branch -/
 
 namespace Ex
